@@ -265,6 +265,8 @@ def run(repo, chk):
 
     from .shared import variant_selection_obligations
     variant_selection_obligations(repo, chk, "R08.1")
+    from .shared import registry_order_obligations
+    registry_order_obligations(repo, chk, "R08.1", "a probe another thread creates by reference (/module/Class/method) while this one is active still resolves the function")
     from .shared import variant_symbol_obligations
     variant_symbol_obligations(repo, chk, "R08.1")
     # ---------------- R08.2
